@@ -511,3 +511,410 @@ Proof.
       unfold pg_hget; cbn [pg_rv]; rewrite Hi, El; reflexivity.
     + exfalso. apply (pgx_norm_obj _ _ _ _ En). exact El.
 Qed.
+
+(* ---------------------------------------------------------------- the lazy parts, from any cache state *)
+Lemma pgx_st_flat : forall p K, pgx_st p K -> pgx_flat p K.
+Proof. intros p K [H _]. exact H. Qed.
+
+Lemma pgx_st_all : forall p K, pgx_st p K -> pd_all p = [] \/ pd_all p = K.
+Proof. intros p K [_ [[_ H]|[H _]]]; [exact H|right; exact H]. Qed.
+
+Lemma pgx_find_st : forall p K og, pgx_st p K ->
+  exists p1, pg_find p og = (p1, match pg_index K og with Some _ => None | None => Some PeQ end,
+                                 match pg_index K og with Some k => Z.of_nat k | None => 0%Z end) /\
+    pgx_st p1 K /\ pd_all p1 = K /\ pg_inv p1 /\ pgx_sim (pd_store p) (pd_store p1) /\ pd_root p1 = pd_root p.
+Proof.
+  intros p K og Hst. destruct (pgx_flatten_st _ K Hst) as (p1 & Hfl & Hf1 & Hall1 & Hpi1 & Hsim & Hr1 & Ho1 & Hg1 & Hinv1).
+  exists p1. unfold pg_find. rewrite Hfl. destruct Hpi1 as [Hpf Hnd]. rewrite Hpf.
+  split; [destruct (pg_index K og); reflexivity|]. split; [split; [exact Hf1|right; split; [exact Hall1|split; assumption]]|].
+  repeat (split; [assumption|]). exact Hr1.
+Qed.
+
+Lemma pgx_all_st : forall p K, pgx_st p K ->
+  exists p1, pg_all p = (p1, None) /\ pgx_st p1 K /\ pd_all p1 = K /\ pgx_sim (pd_store p) (pd_store p1) /\ pd_root p1 = pd_root p.
+Proof.
+  intros p K [Hf Hc]. unfold pg_all. destruct (pd_all p) as [|x t] eqn:Ea.
+  - destruct (pgx_cache_flat p K Hf Ea) as (s' & Ec & Hsim). rewrite Ec. eexists. split; [reflexivity|].
+    assert (Hf' : pgx_flat (pd_with_all (pd_with_store p s') K) K).
+    { eapply pgx_flat_eq; [| | |apply (pgx_flat_sim p K s' Hf Hsim)]; [reflexivity|reflexivity|]. cbn. apply (pgx_flat_invalid p K Hf). }
+    split; [split; [exact Hf'|]|split; [reflexivity|split; [exact Hsim|reflexivity]]].
+    cbn [pd_pos pd_all pd_with_all pd_with_store]. destruct Hc as [[Hp _]|[Ha Hpi]].
+    + left. split; [exact Hp|right; reflexivity].
+    + right. split; [reflexivity|exact Hpi].
+  - exists p. split; [reflexivity|]. assert (Hk : pd_all p = K) by (destruct Hc as [[_ [H|H]]|[H _]]; congruence).
+    split; [split; [exact Hf|rewrite <- Ea in Hc; exact Hc]|]. split; [exact Hk|split; [apply pgx_sim_refl|reflexivity]].
+Qed.
+
+Lemma pgx_refresh_st : forall p K, pgx_st p K ->
+  exists p1, pg_update_cache p = (p1, None) /\ pgx_st p1 K /\ pgx_sim (pd_store p) (pd_store p1).
+Proof.
+  intros p K [Hf _]. destruct (refresh_keeps_list_lemma p K Hf) as (s' & Er & Hsim & Hf'). rewrite Er. eexists. split; [reflexivity|].
+  split; [split; [exact Hf'|left; split; [reflexivity|right; reflexivity]]|exact Hsim].
+Qed.
+
+Lemma pgx_push_st : forall p K, pgx_st p K ->
+  exists p1, pg_push p false = (p1, None) /\ pgx_st p1 K /\ pgx_sim (pd_store p) (pd_store p1).
+Proof.
+  intros p K Hst. destruct (pgx_push_flat p K (pgx_st_flat _ _ Hst) (pgx_st_all _ _ Hst)) as (p1 & Ep & Hf1 & Ha1 & Hp1 & Hsim & _).
+  exists p1. split; [exact Ep|]. split; [|exact Hsim]. split; [exact Hf1|].
+  destruct Hst as [_ [[Hp Ha]|[Ha Hpi]]].
+  - left. split; [congruence|]. destruct Ha1 as [Ha1|[_ ->]]; [right; exact Ha1|exact Ha].
+  - right. split; [destruct Ha1 as [Ha1|[_ ->]]; assumption|]. unfold pgx_posinv in *. rewrite Hp1. exact Hpi.
+Qed.
+
+(* ---------------------------------------------------------------- worlds *)
+Definition pgx_W (w : pg_world) : Prop := (exists K, pgx_st (fst w) K) /\ (exists K, pgx_st (snd w) K).
+
+Lemma pgx_W_get : forall w d, pgx_W w -> exists K, pgx_st (pg_get w d) K.
+Proof. intros [a b] [] [H1 H2]; assumption. Qed.
+Lemma pgx_W_put : forall w d p K, pgx_W w -> pgx_st p K -> pgx_W (pg_put w d p).
+Proof. intros [a b] [] p K [H1 H2] H; split; cbn; eauto. Qed.
+
+Lemma pgx_marks_st_sim : forall p p1 K, pgx_st p K -> pgx_st p1 K -> pgx_sim (pd_store p) (pd_store p1) -> pgx_marks p1 = pgx_marks p.
+Proof. intros p p1 K H H1 Hs. eapply pgx_marks_sim; [apply pgx_st_flat; exact H|apply pgx_st_flat; exact H1|exact Hs]. Qed.
+
+Lemma pgx_marks2_put_same : forall w d p, pgx_marks p = pgx_marks (pg_get w d) -> pgx_marks2 (pg_put w d p) = pgx_marks2 w.
+Proof. intros [a b] [] p H; unfold pgx_marks2; cbn in *; rewrite H; reflexivity. Qed.
+
+Lemma pgx_marks_length : forall p K, pgx_flat p K -> length (pgx_marks p) = length K.
+Proof. intros p K Hf. unfold pgx_marks. rewrite (pgx_K_flat _ _ Hf). apply map_length. Qed.
+
+(* insertion at a valid position, both sides *)
+Lemma pgx_step_insert : forall w d h n K,
+  pgx_W w -> pgx_st (pg_get w d) K -> pgx_operand_ok w d h -> (n <= length K)%nat ->
+  let '(w', e) := pg_insert w d h (Z.of_nat n) in
+  let '(s', raise_) := pg_spec_step (pgx_marks2 w) (if pg_insertable w d h then SpInsert d n (pg_operand_mark w h) else SpInvalid) in
+  pgx_marks2 w' = s' /\ pg_is_err (pg_res_of e) = raise_ /\ pgx_W w'.
+Proof.
+  intros w d h n K HW Hst Hop Hn. destruct (pg_insertable w d h) eqn:Hins.
+  - destruct (pgx_insert_ok w d h (Z.of_nat n) K Hst Hop Hins) as (p' & K' & Hrun & Hst' & Hmk); [unfold pg_len; lia|].
+    rewrite Hrun. cbn [pg_spec_step]. rewrite pgx_marks2_sel, (pgx_marks_length _ K (pgx_st_flat _ _ Hst)).
+    assert (Nat.leb n (length K) = true) as -> by (apply Nat.leb_le; exact Hn).
+    rewrite pgx_marks2_put, Hmk, Nat2Z.id. split; [reflexivity|]. split; [reflexivity|]. eapply pgx_W_put; eassumption.
+  - unfold pg_insert. rewrite Hins. cbn. split; [reflexivity|]. split; [reflexivity|exact HW].
+Qed.
+
+Lemma pgx_erase_ok : forall w d og K, pgx_st (pg_get w d) K ->
+  match pg_index K og with
+  | Some k => exists p', pg_erase w d og = (pg_put w d p', None) /\ pgx_st p' (pg_list_del K k) /\
+                         pgx_marks p' = pgsp_remove (pgx_marks (pg_get w d)) k
+  | None => exists p', pg_erase w d og = (pg_put w d p', Some PeQ) /\ pgx_st p' K /\ pgx_marks p' = pgx_marks (pg_get w d)
+  end.
+Proof.
+  intros w d og K Hst. destruct (pgx_find_st _ K og Hst) as (p1 & Efind & Hst1 & Hall1 & Hinv1 & Hsim & Hr1).
+  unfold pg_erase. rewrite Efind. destruct (pg_index K og) as [k|] eqn:Ek.
+  - assert (Ek1 : pg_index (pd_all p1) og = Some k) by (rewrite Hall1; exact Ek).
+    destruct (pg_erase_core_ok _ _ _ Hinv1 Ek1) as (p2 & Hrun & Hi2 & Hall2 & Hr2 & _ & _ & Hfr). rewrite Hrun.
+    pose proof (pgx_st_flat _ _ Hst1) as Hf1.
+    pose proof Hf1 as (pn & dn & Hroot1 & Hpn1 & Hkids1 & Hcount1 & Hpar1 & Hpnroot1 & Hpnk1 & Hrootk1 & Hnd1 & Hleaf1 & Hinvf1).
+    pose proof (pgx_erase_core_edit p1 og (Z.of_nat k) pn Hroot1) as Hed. rewrite Hrun in Hed. cbn [fst] in Hed.
+    assert (Hf2 : pgx_flat p2 (pd_all p2)).
+    { eapply (pgx_flat_of_inv_edit p1 p2 K pn Hf1 Hroot1 Hi2 Hr2 Hed).
+      intros j Hj. rewrite Hall2, Hall1 in Hj. apply pg_In_del in Hj.
+      destruct (Hleaf1 j Hj) as (dk & Edk & Ldk). eapply pgx_leafy_edit; [exact Hed| |exact Edk|exact Ldk]. intros ->. contradiction. }
+    exists p2. split; [reflexivity|]. rewrite <- Hall1, <- Hall2. split; [apply pgx_st_of_inv; assumption|].
+    rewrite (pgx_marks_flat_all p2 _ Hf2 eq_refl).
+    rewrite <- (pgx_marks_st_sim _ _ K Hst Hst1 Hsim), (pgx_marks_flat_all p1 K Hf1 Hall1).
+    unfold pg_marks, pgsp_remove. rewrite Hall2, Hall1. rewrite pg_list_del_spec, map_app, firstn_map, skipn_map.
+    assert (Hsame : forall j, In j K -> pg_mark (pd_store p2) j = pg_mark (pd_store p1) j).
+    { intros j Hj. apply pg_mark_ext, Hfr. rewrite Hroot1. intros EE. inversion EE. subst. contradiction. }
+    f_equal; apply map_ext_in; intros j Hj; apply Hsame.
+    + rewrite <- (firstn_skipn k K). apply in_app_iff. left. exact Hj.
+    + rewrite <- (firstn_skipn (S k) K). apply in_app_iff. right. exact Hj.
+  - exists p1. split; [reflexivity|]. split; [exact Hst1|]. eapply pgx_marks_st_sim; eassumption.
+Qed.
+
+(* ---------------------------------------------------------------- the calls, and the same calls on the plain list *)
+Definition pgx_page_like (v : pg_val) : Prop := exists dv, v = PvDict dv /\ pgx_leafy dv.
+Definition pgx_cell_page_like (c : pg_cell) : Prop := match c with PcObj v => pgx_page_like v | _ => False end.
+
+(* the calls covered: everything harness/c13.py issues except (1) pages / objects of the OTHER document as operands
+   (C13ProofsH.v), (2) direct damage to the tree, which the harness also leaves outside the list specification:
+   replaceObject / swapObjects on the catalog or the /Pages node, or turning a page into something that is not a leaf
+   dictionary, (3) the null operand and the stream of the other document with the same number (known findings) *)
+Definition pgx_adm (w : pg_world) (o : pg_op) : Prop :=
+  let K d := pgx_K (pg_get w d) in
+  match o with
+  | PoAddPage d h _ | PoHAddPage d h _ | PoAddPageAt d h _ _ => pgx_operand_ok w d h
+  | PoRemove _ _ | PoFind _ _ | PoGetPages _ | PoMakeIndirect _ _ | PoRefresh _ | PoPushInh _ | PoReplaceReserved _ _ => True
+  | PoShallowCopy d i => exists v, pg_lookup (pd_store (pg_get w d)) i = Some (PcObj v)
+  | PoReplace d i v => pg_not_node (pg_get w d) i /\ (In i (K d) -> pgx_page_like v)
+  | PoSwap d i j => pg_not_node (pg_get w d) i /\ pg_not_node (pg_get w d) j /\
+                    (exists ci cj, pg_lookup (pd_store (pg_get w d)) i = Some ci /\ pg_lookup (pd_store (pg_get w d)) j = Some cj /\
+                       (In i (K d) -> pgx_cell_page_like cj) /\ (In j (K d) -> pgx_cell_page_like ci))
+  | PoReplaceInd d i h =>
+      match pg_norm w h with
+      | PhDirect v => pg_not_node (pg_get w d) i /\ (In i (K d) -> pgx_page_like v)
+      | PhObj b j => pg_is_stream (pd_store (pg_get w b)) (PvRef j) && (j =? i) = false   (* the accepted form is known finding F4 / F5 *)
+      end
+  | PoCopyForeign d h => match pg_norm w h with PhObj b _ => b = d | PhDirect _ => True end
+  end.
+
+Definition pgx_abs (w : pg_world) (o : pg_op) : pg_sop :=
+  let K d := pgx_K (pg_get w d) in
+  match o with
+  | PoAddPage d h first | PoHAddPage d h first =>
+      if pg_insertable w d h then SpInsert d (if first then O else length (K d)) (pg_operand_mark w h) else SpInvalid
+  | PoAddPageAt d h before r =>
+      if pg_foreign_handle w d r then SpInvalid
+      else match pg_index (K d) (pg_og_of w r) with
+           | Some k => if pg_insertable w d h then SpInsert d (if before then k else S k) (pg_operand_mark w h) else SpInvalid
+           | None => SpInvalid
+           end
+  | PoRemove d h =>
+      if pg_foreign_handle w d h then SpInvalid
+      else match pg_index (K d) (pg_og_of w h) with Some k => SpRemove d k | None => SpInvalid end
+  | PoFind d i => match pg_index (K d) i with Some _ => SpNop | None => SpInvalid end
+  | PoReplace d i v => match pg_index (K d) i with Some k => SpSet d k (pg_val_mark v) | None => SpNop end
+  | PoSwap d i j =>
+      match pg_index (K d) i, pg_index (K d) j with
+      | Some a, Some b => SpSwap d a b
+      | Some a, None => SpSet d a (pg_mark (pd_store (pg_get w d)) j)
+      | None, Some b => SpSet d b (pg_mark (pd_store (pg_get w d)) i)
+      | None, None => SpNop
+      end
+  | PoReplaceInd d i h =>      (* "the object handle passed in must be a direct object" *)
+      match pg_norm w h with
+      | PhDirect v => match pg_index (K d) i with Some k => SpSet d k (pg_val_mark v) | None => SpNop end
+      | PhObj _ _ => SpInvalid
+      end
+  | PoReplaceReserved _ _ => SpInvalid
+  | PoCopyForeign d h => match pg_norm w h with PhObj b _ => if Bool.eqb b d then SpInvalid else SpNop | PhDirect _ => SpInvalid end
+  | _ => SpNop
+  end.
+
+Lemma pgx_count_st : forall p K, pgx_flat p K ->
+  pg_rv (pd_store p) (pg_hget (pd_store p) (pg_root_pages p) pgk_Count) = PvInt (pg_len K).
+Proof.
+  intros p K (pn & d & Hroot & Hpn & _ & Hcount & _). rewrite Hroot, (pgx_hget_ref _ pn d pgk_Count Hpn), Hcount. reflexivity.
+Qed.
+
+(* replacing the cell of one object that is not a node of the tree *)
+Lemma pgx_flat_supd : forall p K i c, pgx_flat p K -> pg_not_node p i ->
+  (In i K -> pgx_cell_page_like c) -> pgx_flat (pd_with_store p (pg_supd (pd_store p) i c)) K.
+Proof.
+  intros p K i c (pn & d & Hroot & Hpn & Hkids & Hcount & Hpar & Hpnroot & Hpnk & Hrootk & Hnd & Hleaf & Hinv) [Hir Hip] Hc.
+  assert (Hipn : i <> pn) by (intros ->; apply Hip; exact Hroot).
+  exists pn, d. cbn [pd_store pd_root pd_invalid pd_with_store].
+  split. { rewrite <- Hroot. apply pg_root_pages_ext; [reflexivity|]. cbn [pd_store pd_root pd_with_store]. rewrite pg_lookup_supd.
+           assert (pd_root p =? i = false) as -> by (apply N.eqb_neq; congruence). reflexivity. }
+  split. { rewrite pg_lookup_supd. assert (pn =? i = false) as -> by (apply N.eqb_neq; congruence). exact Hpn. }
+  repeat (split; [assumption|]). split; [|exact Hinv].
+  intros k Hk. rewrite pg_lookup_supd. destruct (k =? i) eqn:E; [|apply Hleaf, Hk].
+  apply N.eqb_eq in E. subst k. specialize (Hc Hk). destruct c as [v|]; [|contradiction]. destruct Hc as (dv & -> & Hl). exists dv. split; [reflexivity|exact Hl].
+Qed.
+
+Lemma pgx_st_store : forall p K s', pgx_st p K -> pgx_flat (pd_with_store p s') K -> pgx_st (pd_with_store p s') K.
+Proof. intros p K s' [_ Hc] Hf. split; [exact Hf|exact Hc]. Qed.
+
+Lemma pgx_marks_store : forall p K s', pgx_flat p K -> pgx_flat (pd_with_store p s') K ->
+  pgx_marks (pd_with_store p s') = map (pg_mark s') K /\ pgx_marks p = map (pg_mark (pd_store p)) K.
+Proof. intros p K s' H H'. unfold pgx_marks. rewrite (pgx_K_flat _ _ H), (pgx_K_flat _ _ H'). split; reflexivity. Qed.
+
+Lemma pgx_flat_alloc : forall p K c, pgx_flat p K -> pgx_flat (pd_with_store p (fst (pg_alloc (pd_store p) c))) K.
+Proof. intros p K c H. apply pgx_flat_sim; [exact H|apply pgx_sim_alloc]. Qed.
+
+Lemma pgx_step_alloc : forall w d c K, pgx_W w -> pgx_st (pg_get w d) K ->
+  pgx_marks2 (pg_put w d (pd_with_store (pg_get w d) (fst (pg_alloc (pd_store (pg_get w d)) c)))) = pgx_marks2 w /\
+  pgx_W (pg_put w d (pd_with_store (pg_get w d) (fst (pg_alloc (pd_store (pg_get w d)) c)))).
+Proof.
+  intros w d c K HW Hst. pose proof (pgx_st_flat _ _ Hst) as Hf. pose proof (pgx_flat_alloc _ K c Hf) as Hf'.
+  split.
+  - apply pgx_marks2_put_same. eapply pgx_marks_sim; [exact Hf|exact Hf'|apply pgx_sim_alloc].
+  - eapply pgx_W_put; [exact HW|apply pgx_st_store; eassumption].
+Qed.
+
+Lemma pgx_root_pages_of_sim : forall p p1 pn, pgx_sim (pd_store p) (pd_store p1) -> pd_root p1 = pd_root p ->
+  pg_root_pages p = PvRef pn -> pg_root_pages p1 = PvRef pn.
+Proof.
+  intros p p1 pn Hs Hr E. pose proof (pgx_root_pages_sim p (pd_store p1) Hs pn E) as H. unfold pg_root_pages in *.
+  cbn [pd_store pd_root pd_with_store] in H. rewrite Hr. exact H.
+Qed.
+
+(* an insertion made after the lazy part of the same call (findPage / getAllPages) has run *)
+Lemma pgx_step_insert_after : forall w d h n K p1,
+  pgx_W w -> pgx_st (pg_get w d) K -> pgx_st p1 K -> pgx_sim (pd_store (pg_get w d)) (pd_store p1) -> pd_root p1 = pd_root (pg_get w d) ->
+  pgx_operand_ok w d h -> (n <= length K)%nat ->
+  let '(w', e) := pg_insert (pg_put w d p1) d h (Z.of_nat n) in
+  let '(s', raise_) := pg_spec_step (pgx_marks2 w) (if pg_insertable w d h then SpInsert d n (pg_operand_mark w h) else SpInvalid) in
+  pgx_marks2 w' = s' /\ pg_is_err (pg_res_of e) = raise_ /\ pgx_W w'.
+Proof.
+  intros w d h n K p1 HW Hst Hst1 Hsim Hr Hop Hn.
+  destruct (pgx_st_flat _ _ Hst) as (pn & dn & Hroot & _).
+  destruct (pgx_operand_sim w d h p1 Hop Hsim Hr) as (Hop1 & Hins1 & Hmk1).
+  { intros pn0 E. eapply pgx_root_pages_of_sim; eassumption. } { exists pn. exact Hroot. }
+  assert (HW1 : pgx_W (pg_put w d p1)) by (eapply pgx_W_put; eassumption).
+  assert (Hst1' : pgx_st (pg_get (pg_put w d p1) d) K) by (rewrite pg_get_put_same; exact Hst1).
+  pose proof (pgx_step_insert (pg_put w d p1) d h n K HW1 Hst1' Hop1 Hn) as H.
+  rewrite Hins1, Hmk1 in H.
+  assert (pgx_marks2 (pg_put w d p1) = pgx_marks2 w) as Hm by (apply pgx_marks2_put_same; eapply pgx_marks_st_sim; eassumption).
+  rewrite Hm in H. exact H.
+Qed.
+
+Lemma pgx_step_refines : forall w o, pgx_W w -> pgx_adm w o ->
+  let '(w', r) := pg_step w o in
+  let '(s', raise_) := pg_spec_step (pgx_marks2 w) (pgx_abs w o) in
+  pgx_marks2 w' = s' /\ pg_is_err r = raise_ /\ pgx_W w'.
+Proof.
+  intros w o HW Ha. destruct o as [d h first|d h first|d h before r|d h|d i|d h|d i v|d i j|d|d|d|d i|d v|d i h|d i];
+    cbn [pgx_adm] in Ha; destruct (pgx_W_get w d HW) as [K Hst]; pose proof (pgx_st_flat _ _ Hst) as Hf;
+    pose proof (pgx_K_flat _ _ Hf) as HK.
+  - (* addPage *)
+    cbn [pg_step pgx_abs]. rewrite HK. destruct first.
+    + pose proof (pgx_step_insert w d h O K HW Hst Ha ltac:(lia)) as H. cbn [Z.of_nat] in H.
+      destruct (pg_insert w d h 0) as [w' e]. exact H.
+    + rewrite (pgx_count_st _ K Hf). unfold pg_len.
+      pose proof (pgx_step_insert w d h (length K) K HW Hst Ha ltac:(lia)) as H.
+      destruct (pg_insert w d h (Z.of_nat (length K))) as [w' e]. exact H.
+  - (* QPDFPageDocumentHelper::addPage *)
+    cbn [pg_step pgx_abs]. rewrite HK. destruct first.
+    + pose proof (pgx_step_insert w d h O K HW Hst Ha ltac:(lia)) as H. cbn [Z.of_nat] in H.
+      destruct (pg_insert w d h 0) as [w' e]. exact H.
+    + destruct (pgx_all_st _ K Hst) as (p1 & Eall & Hst1 & Hall1 & Hsim & Hr1). rewrite Eall. cbv iota beta.
+      rewrite Hall1. unfold pg_len.
+      pose proof (pgx_step_insert_after w d h (length K) K p1 HW Hst Hst1 Hsim Hr1 Ha ltac:(lia)) as H.
+      destruct (pg_insert (pg_put w d p1) d h (Z.of_nat (length K))) as [w' e]. exact H.
+  - (* addPageAt *)
+    cbn [pg_step pgx_abs]. rewrite HK.
+    destruct (pg_foreign_handle w d r); [cbn; split; [reflexivity|]; split; [reflexivity|exact HW]|].
+    destruct (pgx_find_st _ K (pg_og_of w r) Hst) as (p1 & Efind & Hst1 & Hall1 & Hinv1 & Hsim & Hr1). rewrite Efind.
+    destruct (pg_index K (pg_og_of w r)) as [k|] eqn:E.
+    + cbv iota beta. pose proof (pg_index_lt _ _ _ E) as Hlt. destruct before.
+      * pose proof (pgx_step_insert_after w d h k K p1 HW Hst Hst1 Hsim Hr1 Ha ltac:(lia)) as H.
+        destruct (pg_insert (pg_put w d p1) d h (Z.of_nat k)) as [w' e]. exact H.
+      * pose proof (pgx_step_insert_after w d h (S k) K p1 HW Hst Hst1 Hsim Hr1 Ha ltac:(lia)) as H.
+        replace (Z.of_nat k + 1)%Z with (Z.of_nat (S k)) by lia.
+        destruct (pg_insert (pg_put w d p1) d h (Z.of_nat (S k))) as [w' e]. exact H.
+    + cbn. split; [apply pgx_marks2_put_same; eapply pgx_marks_st_sim; eassumption|]. split; [reflexivity|eapply pgx_W_put; eassumption].
+  - (* removePage *)
+    cbn [pg_step pgx_abs]. rewrite HK.
+    destruct (pg_foreign_handle w d h); [cbn; split; [reflexivity|]; split; [reflexivity|exact HW]|].
+    pose proof (pgx_erase_ok w d (pg_og_of w h) K Hst) as H.
+    destruct (pg_index K (pg_og_of w h)) as [k|] eqn:E.
+    + destruct H as (p' & Erun & Hst' & Hmk). rewrite Erun. cbn [pg_res_of pg_is_err pg_spec_step].
+      rewrite pgx_marks2_sel, (pgx_marks_length _ K Hf).
+      assert (Nat.ltb k (length K) = true) as -> by (apply Nat.ltb_lt; eapply pg_index_lt, E).
+      rewrite pgx_marks2_put, Hmk. split; [reflexivity|]. split; [reflexivity|eapply pgx_W_put; eassumption].
+    + destruct H as (p' & Erun & Hst' & Hmk). rewrite Erun. cbn.
+      split; [apply pgx_marks2_put_same; exact Hmk|]. split; [reflexivity|eapply pgx_W_put; eassumption].
+  - (* shallowCopyPage *)
+    destruct Ha as [v Hv]. cbn [pg_step pgx_abs pg_spec_step]. rewrite Hv.
+    change (let '(s, j) := pg_alloc (pd_store (pg_get w d)) (PcObj v) in (pg_put w d (pd_with_store (pg_get w d) s), PrId j))
+      with (pg_put w d (pd_with_store (pg_get w d) (fst (pg_alloc (pd_store (pg_get w d)) (PcObj v)))), PrId (pg_next_id (pd_store (pg_get w d)))).
+    cbv iota beta. destruct (pgx_step_alloc w d (PcObj v) K HW Hst) as [Hm HW']. split; [exact Hm|]. split; [reflexivity|exact HW'].
+  - (* copyForeignObject: in this file only the calls that are rejected *)
+    cbn [pg_step pgx_abs]. destruct (pg_norm w h) as [v|b i]; [cbn; split; [reflexivity|]; split; [reflexivity|exact HW]|].
+    subst b. rewrite Bool.eqb_reflx. cbn. split; [reflexivity|]. split; [reflexivity|exact HW].
+  - (* replaceObject *)
+    destruct Ha as [Hnn Hpl]. rewrite HK in Hpl. cbn [pg_step pgx_abs]. rewrite HK.
+    set (p := pg_get w d) in *. set (s' := pg_supd (pd_store p) i (PcObj v)).
+    assert (Hf' : pgx_flat (pd_with_store p s') K) by (apply pgx_flat_supd; [exact Hf|exact Hnn|exact Hpl]).
+    destruct (pgx_marks_store p K s' Hf Hf') as [Hm' Hm].
+    assert (HW' : pgx_W (pg_put w d (pd_with_store p s'))) by (eapply pgx_W_put; [exact HW|apply pgx_st_store; eassumption]).
+    assert (Hl : forall j, pg_lookup s' j = if j =? i then Some (PcObj v) else pg_lookup (pd_store p) j) by (intros; apply pg_lookup_supd).
+    assert (Hfm : forall j, j <> i -> pg_mark s' j = pg_mark (pd_store p) j).
+    { intros j Hj. apply pg_mark_ext. rewrite Hl. apply N.eqb_neq in Hj. rewrite Hj. reflexivity. }
+    assert (Hmi : pg_mark s' i = pg_val_mark v) by (apply pg_mark_obj; rewrite Hl, N.eqb_refl; reflexivity).
+    assert (Hnd : NoDup K) by (destruct Hf as (? & ? & _ & _ & _ & _ & _ & _ & _ & _ & Hnd & _); exact Hnd).
+    destruct (pg_index K i) as [k|] eqn:E; cbn [pg_spec_step].
+    + rewrite pgx_marks2_sel. fold p. rewrite (pgx_marks_length p K Hf).
+      assert (Nat.ltb k (length K) = true) as -> by (apply Nat.ltb_lt; eapply pg_index_lt, E).
+      rewrite pgx_marks2_put. split; [|split; [reflexivity|exact HW']].
+      f_equal. rewrite Hm', Hm, <- Hmi. apply pg_map_update; assumption.
+    + split; [|split; [reflexivity|exact HW']]. apply pgx_marks2_put_same. fold p. rewrite Hm', Hm.
+      eapply pg_map_same; [apply pg_index_none, E|exact Hfm].
+  - (* swapObjects *)
+    destruct Ha as (Hni & Hnj & ci & cj & Eci & Ecj & Hpi & Hpj). rewrite HK in Hpi, Hpj. cbn [pg_step pgx_abs]. rewrite HK.
+    set (p := pg_get w d) in *. rewrite Eci, Ecj.
+    set (s1 := pg_supd (pd_store p) i cj). set (s' := pg_supd s1 j ci).
+    assert (Hl1 : forall x, pg_lookup s1 x = if x =? i then Some cj else pg_lookup (pd_store p) x) by (intros; apply pg_lookup_supd).
+    assert (Hl : forall x, pg_lookup s' x = if x =? j then Some ci else pg_lookup s1 x) by (intros; apply pg_lookup_supd).
+    assert (Hf1 : pgx_flat (pd_with_store p s1) K) by (apply pgx_flat_supd; assumption).
+    assert (Hf' : pgx_flat (pd_with_store p s') K).
+    { change (pd_with_store p s') with (pd_with_store (pd_with_store p s1) (pg_supd (pd_store (pd_with_store p s1)) j ci)).
+      apply pgx_flat_supd; [exact Hf1| |].
+      - destruct Hnj as [A B]. split; [exact A|]. destruct Hf as (pn & dn & Hroot & _). destruct Hf1 as (pn1 & dn1 & Hroot1 & _).
+        intros E. apply B. rewrite Hroot. rewrite Hroot1 in E. rewrite <- E. f_equal.
+        destruct Hni as [A' B']. unfold pg_root_pages, pg_hget in Hroot, Hroot1. cbn [pd_store pd_root pd_with_store pg_rv] in Hroot, Hroot1.
+        rewrite Hl1 in Hroot1. assert (pd_root p =? i = false) as Hb by (apply N.eqb_neq; congruence). rewrite Hb in Hroot1.
+        rewrite Hroot in Hroot1. inversion Hroot1. reflexivity.
+      - intros Hin. destruct (N.eq_dec i j) as [->|Hij]; [|exact (Hpj Hin)].
+        rewrite Eci in Ecj. inversion Ecj. subst cj. exact (Hpi Hin). }
+    destruct (pgx_marks_store p K s' Hf Hf') as [Hm' Hm].
+    assert (HW' : pgx_W (pg_put w d (pd_with_store p s'))) by (eapply pgx_W_put; [exact HW|apply pgx_st_store; eassumption]).
+    assert (Hnd : NoDup K) by (destruct Hf as (? & ? & _ & _ & _ & _ & _ & _ & _ & _ & Hnd & _); exact Hnd).
+    set (f := pg_mark (pd_store p)) in *. set (f1 := pg_mark s1). set (f' := pg_mark s') in *.
+    assert (Hf1m : forall x, x <> i -> f1 x = f x).
+    { intros x Hx. apply pg_mark_ext. rewrite Hl1. apply N.eqb_neq in Hx. rewrite Hx. reflexivity. }
+    assert (Hf1i : f1 i = f j).
+    { unfold f1, f, pg_mark, pg_marker, pg_hget, pg_rv. rewrite Hl1, N.eqb_refl, Ecj. reflexivity. }
+    assert (Hf'm : forall x, x <> j -> f' x = f1 x).
+    { intros x Hx. apply pg_mark_ext. rewrite Hl. apply N.eqb_neq in Hx. rewrite Hx. reflexivity. }
+    assert (Hf'j : f' j = f i).
+    { unfold f', f, pg_mark, pg_marker, pg_hget, pg_rv. rewrite Hl, N.eqb_refl, Eci. reflexivity. }
+    rewrite pgx_marks2_put, Hm'.
+    destruct (pg_index K i) as [a|] eqn:Ea; destruct (pg_index K j) as [b|] eqn:Eb; cbn [pg_spec_step].
+    + rewrite pgx_marks2_sel. fold p. rewrite (pgx_marks_length p K Hf).
+      assert (Nat.ltb a (length K) = true) as -> by (apply Nat.ltb_lt; eapply pg_index_lt, Ea).
+      assert (Nat.ltb b (length K) = true) as -> by (apply Nat.ltb_lt; eapply pg_index_lt, Eb).
+      cbn [andb]. split; [|split; [reflexivity|exact HW']]. f_equal. rewrite Hm.
+      rewrite (pg_nth_map_index f _ _ _ Ea), (pg_nth_map_index f _ _ _ Eb).
+      rewrite (pg_map_update f1 f' K j b Hnd Eb Hf'm), Hf'j.
+      rewrite (pg_map_update f f1 K i a Hnd Ea Hf1m), Hf1i. reflexivity.
+    + rewrite pgx_marks2_sel. fold p. rewrite (pgx_marks_length p K Hf).
+      assert (Nat.ltb a (length K) = true) as -> by (apply Nat.ltb_lt; eapply pg_index_lt, Ea).
+      split; [|split; [reflexivity|exact HW']]. f_equal. rewrite Hm.
+      rewrite (pg_map_same f1 f' K j (proj1 (pg_index_none _ _) Eb) Hf'm).
+      rewrite (pg_map_update f f1 K i a Hnd Ea Hf1m), Hf1i. reflexivity.
+    + rewrite pgx_marks2_sel. fold p. rewrite (pgx_marks_length p K Hf).
+      assert (Nat.ltb b (length K) = true) as -> by (apply Nat.ltb_lt; eapply pg_index_lt, Eb).
+      split; [|split; [reflexivity|exact HW']]. f_equal. rewrite Hm.
+      rewrite (pg_map_update f1 f' K j b Hnd Eb Hf'm), Hf'j.
+      rewrite (pg_map_same f f1 K i (proj1 (pg_index_none _ _) Ea) Hf1m). reflexivity.
+    + split; [|split; [reflexivity|exact HW']].
+      rewrite <- (pg_put_get w d) at 2. rewrite pgx_marks2_put. f_equal. fold p. rewrite Hm.
+      rewrite (pg_map_same f1 f' K j (proj1 (pg_index_none _ _) Eb) Hf'm).
+      apply (pg_map_same f f1 K i (proj1 (pg_index_none _ _) Ea) Hf1m).
+  - (* updateAllPagesCache *)
+    cbn [pg_step pgx_abs pg_spec_step]. destruct (pgx_refresh_st _ K Hst) as (p1 & E1 & Hst1 & Hsim). rewrite E1. cbn.
+    split; [apply pgx_marks2_put_same; eapply pgx_marks_st_sim; eassumption|]. split; [reflexivity|eapply pgx_W_put; eassumption].
+  - (* pushInheritedAttributesToPage *)
+    cbn [pg_step pgx_abs pg_spec_step]. destruct (pgx_push_st _ K Hst) as (p1 & E1 & Hst1 & Hsim). rewrite E1. cbn.
+    split; [apply pgx_marks2_put_same; eapply pgx_marks_st_sim; eassumption|]. split; [reflexivity|eapply pgx_W_put; eassumption].
+  - (* getAllPages *)
+    cbn [pg_step pgx_abs pg_spec_step]. destruct (pgx_all_st _ K Hst) as (p1 & E1 & Hst1 & _ & Hsim & _). rewrite E1. cbn.
+    split; [apply pgx_marks2_put_same; eapply pgx_marks_st_sim; eassumption|]. split; [reflexivity|eapply pgx_W_put; eassumption].
+  - (* findPage *)
+    cbn [pg_step pgx_abs]. rewrite HK. destruct (pgx_find_st _ K i Hst) as (p1 & E1 & Hst1 & _ & _ & Hsim & _). rewrite E1.
+    destruct (pg_index K i); cbn; (split; [apply pgx_marks2_put_same; eapply pgx_marks_st_sim; eassumption|]; split; [reflexivity|eapply pgx_W_put; eassumption]).
+  - (* makeIndirectObject *)
+    cbn [pg_step pgx_abs pg_spec_step].
+    change (let '(s, j) := pg_alloc (pd_store (pg_get w d)) (PcObj v) in (pg_put w d (pd_with_store (pg_get w d) s), PrId j))
+      with (pg_put w d (pd_with_store (pg_get w d) (fst (pg_alloc (pd_store (pg_get w d)) (PcObj v)))), PrId (pg_next_id (pd_store (pg_get w d)))).
+    cbv iota beta. destruct (pgx_step_alloc w d (PcObj v) K HW Hst) as [Hm HW']. split; [exact Hm|]. split; [reflexivity|exact HW'].
+  - (* replaceObject with an indirect handle *)
+    cbn [pg_step pgx_abs]. rewrite HK. destruct (pg_norm w h) as [v|b j] eqn:En.
+    + destruct Ha as [Hnn Hpl]. rewrite HK in Hpl.
+      set (p := pg_get w d) in *. set (s' := pg_supd (pd_store p) i (PcObj v)).
+      assert (Hf' : pgx_flat (pd_with_store p s') K) by (apply pgx_flat_supd; [exact Hf|exact Hnn|exact Hpl]).
+      destruct (pgx_marks_store p K s' Hf Hf') as [Hm' Hm].
+      assert (HW' : pgx_W (pg_put w d (pd_with_store p s'))) by (eapply pgx_W_put; [exact HW|apply pgx_st_store; eassumption]).
+      assert (Hl : forall j, pg_lookup s' j = if j =? i then Some (PcObj v) else pg_lookup (pd_store p) j) by (intros; apply pg_lookup_supd).
+      assert (Hfm : forall j, j <> i -> pg_mark s' j = pg_mark (pd_store p) j).
+      { intros j Hj. apply pg_mark_ext. rewrite Hl. apply N.eqb_neq in Hj. rewrite Hj. reflexivity. }
+      assert (Hmi : pg_mark s' i = pg_val_mark v) by (apply pg_mark_obj; rewrite Hl, N.eqb_refl; reflexivity).
+      assert (Hnd : NoDup K) by (destruct Hf as (? & ? & _ & _ & _ & _ & _ & _ & _ & _ & Hnd & _); exact Hnd).
+      destruct (pg_index K i) as [k|] eqn:E; cbn [pg_spec_step].
+      * rewrite pgx_marks2_sel. fold p. rewrite (pgx_marks_length p K Hf).
+        assert (Nat.ltb k (length K) = true) as -> by (apply Nat.ltb_lt; eapply pg_index_lt, E).
+        rewrite pgx_marks2_put. split; [|split; [reflexivity|exact HW']].
+        f_equal. rewrite Hm', Hm, <- Hmi. apply pg_map_update; assumption.
+      * split; [|split; [reflexivity|exact HW']]. apply pgx_marks2_put_same. fold p. rewrite Hm', Hm.
+        eapply pg_map_same; [apply pg_index_none, E|exact Hfm].
+    + rewrite Ha. cbn. split; [reflexivity|]. split; [reflexivity|exact HW].
+  - (* replaceObject with a reserved object *)
+    cbn [pg_step pgx_abs pg_spec_step].
+    change (let '(s, _) := pg_alloc (pd_store (pg_get w d)) (PcObj PvNull) in (pg_put w d (pd_with_store (pg_get w d) s), PrErr PeLogic))
+      with (pg_put w d (pd_with_store (pg_get w d) (fst (pg_alloc (pd_store (pg_get w d)) (PcObj PvNull)))), PrErr PeLogic).
+    destruct (pgx_step_alloc w d (PcObj PvNull) K HW Hst) as [Hm HW']. split; [exact Hm|]. split; [reflexivity|exact HW'].
+Qed.
